@@ -75,7 +75,7 @@ func main() {
 }
 
 func runSeq(p *SeqProfile, tier string, seed int64, scratch string, t0 time.Time) int {
-	r := &SeqRun{P: p, Tier: tier, Seed: seed, Scratch: scratch, hists: map[int]*History{}, hhists: map[int][]byte{}, fcases: map[int]frameCase{}, dcases: map[int]bool{}, Counts: map[string]int{},
+	r := &SeqRun{P: p, Tier: tier, Seed: seed, Scratch: scratch, hists: map[int]*History{}, hhists: map[int][]byte{}, fcases: map[int]frameCase{}, dcases: map[int]bool{}, ncases: map[int]*ncaseRef{}, Counts: map[string]int{},
 		Sigs: map[string]struct{}{}, KFHits: map[string]int{}}
 	if olds, _ := filepath.Glob(fmt.Sprintf("/verif/replays/%s-*.json", p.Prop)); len(olds) > 0 {
 		for _, o := range olds {
@@ -138,6 +138,7 @@ func (r *SeqRun) finish(t0 time.Time) int {
 		"trace_states":        r.TraceSt,
 		"known_findings_hit":  r.KFHits,
 		"infrastructure":      r.Infra,
+		"notes":               r.Notes,
 		"histories_random":    r.P.NRandom,
 		"histories_generated": r.NGen,
 		"generator_states":    r.GenStates,
@@ -192,13 +193,13 @@ func replayFile(path string) int {
 		return 2
 	}
 	p := seqProfile(v.Profile, "quick")
-	if p == nil || (v.History == nil && v.HHist == nil && v.FCase == nil && v.DCase == nil) {
+	if p == nil || (v.History == nil && v.HHist == nil && v.FCase == nil && v.DCase == nil && v.NCase == nil) {
 		fmt.Fprintln(os.Stderr, "replay: unknown profile or no history")
 		return 2
 	}
 	scratch, _ := os.MkdirTemp("/dev/shm", "klev-verif-")
 	defer os.RemoveAll(scratch)
-	r := &SeqRun{P: p, Scratch: scratch, Tier: "quick", Seed: 1, hists: map[int]*History{}, hhists: map[int][]byte{}, fcases: map[int]frameCase{}, dcases: map[int]bool{}, Counts: map[string]int{}, Sigs: map[string]struct{}{}, KFHits: map[string]int{}}
+	r := &SeqRun{P: p, Scratch: scratch, Tier: "quick", Seed: 1, hists: map[int]*History{}, hhists: map[int][]byte{}, fcases: map[int]frameCase{}, dcases: map[int]bool{}, ncases: map[int]*ncaseRef{}, Counts: map[string]int{}, Sigs: map[string]struct{}{}, KFHits: map[string]int{}}
 	ok, line, ev := r.replayAny(&v)
 	if len(r.Infra) > 0 {
 		fmt.Fprintln(os.Stderr, "INFRA:", r.Infra)
